@@ -38,8 +38,9 @@ META = {
                   'translator; cross-checked by the differential run), the hand-written micro-step structure (atomicity of '
                   'atomic.LoadUintptr/AddUintptr assumed), the kernel (a granted mmap is fresh, RWX; checked per request from '
                   '/proc/self/maps, by writing and by executing), GetFuncSize giving the placeholder extent (checked against pclntab '
-                  'each run). Hypothesis of the concurrent theorem: requesters x reserve size < 2^63 (no 64-bit wrap). Negative int '
-                  'lengths are outside "request sizes".',
+                  'each run). Hypothesis of the concurrent theorem: requesters x reserve size < 2^63 (no 64-bit wrap). Request '
+                  'lengths range over the whole int domain; space.go (Acquire, Write) is matched literally by the extractor and run by the probe, '
+                  'its model is a hand transcription. Cross-path disjointness assumes the kernel never hands out overlapping live mappings.',
 }
 
 PKG = 'internal/bytecode/stub'
@@ -732,7 +733,14 @@ def run(tier):
             else:
                 diffs.append((vsrc[k], 'observed history: ' + v[:3000], ans))
     if not bad and not crashed:
-        if diffs:
+        if not ok:
+            # the extractor rejected the source: Gen/StubHolder.lean on disk is not a translation of THIS tree, so a
+            # difference between model and implementation means nothing; the broken obligation is the translation itself
+            out.violation(f'tools/genstub cannot translate the current source ({msg}) — the model no longer describes the code — and the '
+                          'widened search found no failing input',
+                          {'kind': 'translator', 'broken': proof['failed'], 'searched_requests': stats['seq_requests'] + stats['conc_requests']},
+                          no_failing_input=True)
+        elif diffs:
             line, a, b = diffs[0]
             out.violation(f'model and implementation disagree on `{line[:160]}`',
                           {'kind': 'correspondence', 'ops': [line], 'impl': a[:4000], 'model': b[:4000],
